@@ -71,6 +71,28 @@ func drawC06(t *rapid.T) *Case {
 	p.Fences = drawBool(t, "fences", 30)
 	p.BackendKeepAlive = drawBool(t, "beka", 30)
 	p.Args = drawCommonArgs(t)
+	if drawBool(t, "prioflood", 3) {
+		// one more HTTP/2 connection that sends 70000 PRIORITY frames on idle streams, sends no
+		// request and stays open while the others run: what it makes the server remember must
+		// not show in anybody else's fingerprint
+		ci := len(p.Clients)
+		cp := &ClientPlan{ID: ci, Addr: drawAddr(t, ci), Hello: fixedHello("h2")}
+		cp.Steps = []Step{{Kind: "connect"}, {Kind: "write", Pieces: [][]byte{append([]byte(ClientPreface), FramesBytes(SettingsFrame())...)}}}
+		for part := 0; part < 7; part++ {
+			var b []byte
+			for j := 0; j < 10000; j++ {
+				b = append(b, PriorityFrame(uint32(2*((part*10000+j)%1000)+1), PrioParam{Dep: 0, Weight: uint8(j)}).Bytes()...)
+			}
+			cp.Steps = append(cp.Steps, Step{Kind: "write", Pieces: [][]byte{b}})
+		}
+		cp.Steps = append(cp.Steps, Step{Kind: "write", Pieces: [][]byte{FramesBytes(PingFrame(false, [8]byte{0xfc}))}}, Step{Kind: "h2ping"}, Step{Kind: "sleep", DelayMS: 5000}, Step{Kind: "close"})
+		p.Clients = append(p.Clients, cp)
+		metas = append(metas, &ClientMeta{Proto: "h2", Kind: "prioflood"})
+		for i := 0; i < n; i++ {
+			p.Clients[i].StartAfterPing = []int{ci}
+		}
+		p.Budget = 20000
+	}
 	if drawBool(t, "timedout", 25) {
 		// connections that run into the handshake timeout first (whatever their teardown
 		// leaves behind must not reach the connections that follow); some of the real
